@@ -306,15 +306,17 @@ def main(argv=None):
     if a.verbose:
         for o in all_obl:
             print("  %-7s %-9s %s  %s" % (o["status"], o["solver"], o["id"], o["log"]))
-    if errors:
-        for e in errors:
-            print("CHECKER-ERROR property=%s %s" % (a.prop, e))
-        return 3
+    # a refuted obligation stands on its own (the solver exhibited a model of the real code's path formula), so it is
+    # reported even when some other part of the check could not be carried out
+    for e in errors:
+        print("CHECKER-ERROR property=%s %s" % (a.prop, e))
     if violations:
         for oid, path, confirmed in violations:
             print("VIOLATION property=%s replay=%s obligation=%s%s" % (
                 a.prop, path, oid, "" if confirmed else " no-failing-input-found"))
         return 1
+    if errors:
+        return 3
     if undecided:
         for u in undecided:
             print("UNDECIDED property=%s obligation=%s" % (a.prop, u))
